@@ -14,8 +14,47 @@ type (
 	Once      = vrt.Once
 	Cond      = vrt.Cond
 	Locker    = vrt.Locker
-	Pool      = sync.Pool
 )
+
+// Pool replaces sync.Pool. The real one keeps per-P caches and is emptied by the garbage collector, so what Get
+// returns depends on the Go scheduler and on what earlier executions of the same process left behind. This one is
+// a plain LIFO free list that starts empty in every execution (one goroutine runs at a time under the
+// scheduler, so no lock is needed); Get and Put are scheduling points like the other shared-state operations.
+type Pool struct {
+	New   func() interface{}
+	items []interface{}
+	run   uint64
+}
+
+func (p *Pool) fresh() {
+	if r := vrt.RunSeq(); r != p.run {
+		p.run, p.items = r, nil
+	}
+}
+
+// Get mirrors sync.Pool.Get.
+func (p *Pool) Get() interface{} {
+	vrt.Point("Pool.Get")
+	p.fresh()
+	if n := len(p.items); n > 0 {
+		x := p.items[n-1]
+		p.items = p.items[:n-1]
+		vrt.Bump()
+		return x
+	}
+	if p.New != nil {
+		return p.New()
+	}
+	return nil
+}
+
+// Put mirrors sync.Pool.Put.
+func (p *Pool) Put(x interface{}) {
+	vrt.Point("Pool.Put")
+	p.fresh()
+	p.items = append(p.items, x)
+	vrt.Bump()
+}
 
 // NewCond mirrors sync.NewCond.
 func NewCond(l Locker) *Cond { return vrt.NewCond(l) }
